@@ -29,22 +29,27 @@ Record handle := mkH {
   published : Z;         (* sequence number written by senders before uv_async_send *)
   seen : Z;              (* value of [published] read by the latest callback *)
   sends_begun : Z;       (* number of uv_async_send calls begun *)
-  cb_count : Z           (* number of async_cb invocations *)
+  cb_count : Z;          (* number of async_cb invocations *)
+  has_cb : bool          (* handle->async_cb != NULL *)
 }.
 
 Definition set_pending (b : bool) (x : handle) : handle :=
-  mkH b (busy x) (hst x) (unl x) (published x) (seen x) (sends_begun x) (cb_count x).
+  mkH b (busy x) (hst x) (unl x) (published x) (seen x) (sends_begun x) (cb_count x) (has_cb x).
 Definition add_busy (d : Z) (x : handle) : handle :=
-  mkH (pending x) (busy x + d) (hst x) (unl x) (published x) (seen x) (sends_begun x) (cb_count x).
+  mkH (pending x) (busy x + d) (hst x) (unl x) (published x) (seen x) (sends_begun x) (cb_count x) (has_cb x).
 Definition set_unl (x : handle) : handle :=
-  mkH (pending x) (busy x) (hst x) true (published x) (seen x) (sends_begun x) (cb_count x).
+  mkH (pending x) (busy x) (hst x) true (published x) (seen x) (sends_begun x) (cb_count x) (has_cb x).
 Definition publish (x : handle) : handle :=
-  mkH (pending x) (busy x) (hst x) (unl x) (published x + 1) (seen x) (sends_begun x + 1) (cb_count x).
+  mkH (pending x) (busy x) (hst x) (unl x) (published x + 1) (seen x) (sends_begun x + 1) (cb_count x) (has_cb x).
 Definition run_cb (x : handle) : handle :=
-  mkH (pending x) (busy x) (hst x) (unl x) (published x) (published x) (sends_begun x) (cb_count x + 1).
+  mkH (pending x) (busy x) (hst x) (unl x) (published x) (published x) (sends_begun x) (cb_count x + 1) (has_cb x).
+(* uv__async_io examined a handle without a callback whose pending flag was set: the
+   wake-up is consumed (ghost: it covers everything published so far) *)
+Definition ack (x : handle) : handle :=
+  mkH false (busy x) (hst x) (unl x) (published x) (published x) (sends_begun x) (cb_count x) (has_cb x).
 (* uv_close: flag + the store of uv__async_spin *)
 Definition begin_close (x : handle) : handle :=
-  mkH true (busy x) Closing (unl x) (published x) (seen x) (sends_begun x) (cb_count x).
+  mkH true (busy x) Closing (unl x) (published x) (seen x) (sends_begun x) (cb_count x) (has_cb x).
 
 Definition is_open (x : handle) : bool :=
   match hst x with Open => true | _ => false end.
@@ -52,12 +57,12 @@ Definition is_open (x : handle) : bool :=
 (* Handles are a total map; an index that was never initialised behaves like a
    closed handle (pending = 1, so a send on it returns at once). *)
 Definition hmap := nat -> handle.
-Definition no_handle : handle := mkH true 0 Closing true 0 0 0 0.
-Definition fresh_handle : handle := mkH false 0 Open false 0 0 0 0.
+Definition no_handle : handle := mkH true 0 Closing true 0 0 0 0 true.
+Definition fresh_handle (cb : bool) : handle := mkH false 0 Open false 0 0 0 0 cb.
 Definition hupd (m : hmap) (h : nat) (f : handle -> handle) : hmap :=
   fun k => if Nat.eqb k h then f (m k) else m k.
-Definition hinit (n : nat) : hmap :=
-  fun k => if Nat.ltb k n then fresh_handle else no_handle.
+Definition hinit (hascb : nat -> bool) (n : nat) : hmap :=
+  fun k => if Nat.ltb k n then fresh_handle (hascb k) else no_handle.
 
 (* ---------------------------------------------------------------------- *)
 (* Senders: program counter inside uv_async_send                           *)
@@ -142,7 +147,8 @@ Inductive ev :=
 | ECb (h : nat) (v : Z)         (* async_cb(h) ran and read published = v *)
 | ECloseRet (h : nat) (b : Z)   (* uv_close(h) returned; busy field at that moment *)
 | ECloseCb (h : nat)            (* close_cb(h) *)
-| EWrite (ok : bool).           (* eventfd write: true = 8 bytes written, false = EAGAIN *)
+| EWrite (ok : bool)            (* eventfd write: true = 8 bytes written, false = EAGAIN *)
+| EAck (h : nat) (v : Z).       (* pending of a handle without callback consumed; published = v *)
 
 Record state := mkSt {
   hs : hmap;
@@ -298,7 +304,13 @@ Definition loop_step (drain_first : bool) (s : state) : option state :=
       let s1 := with_lst (with_lp s (set_queue q l)) (lst s ++ [h]) in
       let old := pending (hs s1 h) in
       let s2 := with_hs s1 (hupd (hs s1) h (set_pending false)) in
-      if old then Some (lpc_to s2 (LCall h)) else Some (scan_next drain_first s2)
+      if old then
+        (if has_cb (hs s1 h) then Some (lpc_to s2 (LCall h))
+         else                                       (* :205 async_cb == NULL: nothing to call; the
+                                                       flag has been cleared all the same *)
+           Some (scan_next drain_first
+                   (emit (with_hs s1 (hupd (hs s1) h ack)) (EAck h (published (hs s1 h))))))
+      else Some (scan_next drain_first s2)
     end
   | LCall h =>                                      (* :208 h->async_cb(h) *)
     let s1 := with_hs s (hupd (hs s) h run_cb) in
@@ -359,13 +371,14 @@ Fixpoint run_stopbreak (s : state) (sched : list nat) : option state :=
               end
   end.
 
-(* Initial state: n handles (numbers 0..n-1) initialised on a fresh loop, eventfd counter
+(* Initial state: n handles (numbers 0..n-1) initialised on a fresh loop (handle k with a
+   callback iff [hascb k]; a handle created with a NULL callback is a pure waker), eventfd counter
    e0, the scripts of the loop thread and of the senders, the behaviour of the callbacks.
    Handle number n is loop->wq_async, the internal handle uv_loop_init puts first into
    loop->async_handles; it is unreferenced, so loop->active_handles does not count it. *)
-Definition init (n : nat) (e0 : Z) (lscript : list lop) (beh : nat -> list cbop)
-                (scripts : list (list nat)) : state :=
-  mkSt (hinit (S n)) (map (mkS SIdle) scripts)
+Definition init (hascb : nat -> bool) (n : nat) (e0 : Z) (lscript : list lop)
+                (beh : nat -> list cbop) (scripts : list (list nat)) : state :=
+  mkSt (hinit hascb (S n)) (map (mkS SIdle) scripts)
        (mkL LTop lscript [] [] false false O [] (Z.of_nat n) [] false beh)
        (n :: seq 0 n) e0 [].
 
@@ -389,8 +402,8 @@ Definition quiescent (s : state) : bool :=
    wake-up descriptor and creates a new one (uv__async_start: eventfd, counter 0).
    The ghost counters restart: the child counts its own sends and callbacks.
    fork() is called by the loop thread between two API calls (program counter LTop). *)
-Definition fork_clear (x : handle) : handle := mkH false 0 (hst x) (unl x) 0 0 0 0.
-Definition fork_keep (x : handle) : handle := mkH (pending x) (busy x) (hst x) (unl x) 0 0 0 0.
+Definition fork_clear (x : handle) : handle := mkH false 0 (hst x) (unl x) 0 0 0 0 (has_cb x).
+Definition fork_keep (x : handle) : handle := mkH (pending x) (busy x) (hst x) (unl x) 0 0 0 0 (has_cb x).
 
 Definition async_fork (s : state) (lscript : list lop) (beh : nat -> list cbop)
                       (scripts : list (list nat)) : state :=
